@@ -73,7 +73,7 @@ func (c16) Rule() string {
 func (c16) Assumptions() []string {
 	return []string{
 		"blank (0x20) is the only token separator (tabs/newlines are not in the alphabet, by the lexer's design)",
-		"strings with an unterminated quote, a lone ^ or ~, or one of * + - / directly followed by = have no documented tokenisation: token truth is still checked, completeness is not (tallied as not judged)",
+		"strings with an unterminated quote have no documented tokenisation: token truth is still checked, completeness is not (tallied as not judged)",
 		"the reference tokenizer (60 lines, written from README's token classes) is the trusted base",
 	}
 }
@@ -130,9 +130,9 @@ func refTokenize(q string) (toks []refTok, judged bool, why string) {
 				toks = append(toks, refTok{pos: i, data: q[i : i+2], class: 'o'})
 				i += 2
 			} else {
-				if why == "" {
-					why = "lone ^ or ~"
-				}
+				// not the beginning of ^= / ~=: a token by itself (no operator of the language, the
+				// parser refuses it; no character outside blanks is dropped)
+				toks = append(toks, refTok{pos: i, data: q[i : i+1], class: 'o'})
 				i++
 			}
 		case ch == '!' || ch == '<' || ch == '>':
@@ -144,9 +144,7 @@ func refTokenize(q string) (toks []refTok, judged bool, why string) {
 				i++
 			}
 		case ch == '*' || ch == '+' || ch == '-' || ch == '/':
-			if i+1 < len(q) && q[i+1] == '=' && why == "" {
-				why = "arithmetic operator directly followed by ="
-			}
+			// * + - / begin no two-character operator: *= is * and =
 			toks = append(toks, refTok{pos: i, data: q[i : i+1], class: 'o'})
 			i++
 		case ch == '=' || ch == '&' || ch == '|' || ch == '(' || ch == ')' || ch == '[' || ch == ']' || ch == ',' || ch == ';':
@@ -473,7 +471,7 @@ func c16BlankMandatory(a, b c16Tok) bool {
 	}
 	if a.class == 'o' && b.class == 'o' && b.text[0] == '=' {
 		last := a.text[len(a.text)-1]
-		if strings.IndexByte("^~!<>*+-/", last) >= 0 {
+		if strings.IndexByte("^~!<>", last) >= 0 {
 			return true
 		}
 	}
